@@ -571,7 +571,7 @@ class ReaderInterp(Interp):
             r = self.cmp(e.ops[0], left, right, frame)
             if r is None and (isinstance(left, Sym) or isinstance(right, Sym)):
                 l2, r2 = (left, right) if isinstance(left, Sym) else (right, left)
-                self.event('cmp', type(e.ops[0]).__name__, repr(l2), r2)
+                self.event('cmp', type(e.ops[0]).__name__, repr(l2), r2, not isinstance(left, Sym))
                 return Top('bool')
             if r is None:
                 return Top('bool')
@@ -588,22 +588,47 @@ def rule_r7(repo):
                 'NUMERIC_MISSING_VALUES does not fold to [2**i - 1 for i in 0..64]: %s' % _short(table))
         return rr
     fi = repo.method('BitStringBitReader', 'read_uint_or_none')
+    FLIP = {'Lt': 'Gt', 'LtE': 'GtE', 'Gt': 'Lt', 'GtE': 'LtE', 'Eq': 'Eq', 'NotEq': 'NotEq', 'Is': 'Is', 'IsNot': 'IsNot'}
+    HOLDS = {'Eq': lambda a, b: a == b, 'NotEq': lambda a, b: a != b, 'Lt': lambda a, b: a < b, 'LtE': lambda a, b: a <= b,
+             'Gt': lambda a, b: a > b, 'GtE': lambda a, b: a >= b, 'Is': lambda a, b: a == b, 'IsNot': lambda a, b: a != b}
     for n in range(0, 65):
         it = ReaderInterp(repo, 'BitStringBitReader')
         res = it.run_function(fi, lambda: {'self': Obj('BitStringBitReader', {}), 'nbits': n}, self_class='BitStringBitReader')
-        outs = set()
+        # every path: the comparisons of the raw field with constants it decided (with their outcome) and what it returns.  The raw
+        # value only meets constants through comparisons, so its behaviour is decided on a finite set of representatives: every
+        # constant mentioned, its neighbours, the ends of the range - however the test is written (==, !=, De Morgan, early return).
+        paths = []
+        consts = set([0, 1, 2 ** n - 1, 2 ** n - 2, 2 ** n // 2])
+        undecidable = None
         for r in res:
             cm = [e for e in r.events if e[0] == 'cmp']
-            dec = tuple((e[1], e[3], c == 0) for e, (l, c, k) in zip(cm, r.res_log if hasattr(r, 'res_log') else r.log))
-            outs.add((dec, 'None' if r.value is None else repr(r.value), r.outcome))
-        if n <= 1:
-            want = {((), 'raw', 'return')}
-        else:
-            want = {((('Eq', 2 ** n - 1, True),), 'None', 'return'), ((('Eq', 2 ** n - 1, False),), 'raw', 'return')}
-        if outs != want:
+            cons = []
+            for e, (l, c, k) in zip(cm, r.log):
+                opn, k0, swapped = e[1], e[3], e[4] if len(e) > 4 else False
+                if opn not in HOLDS or isinstance(k0, bool) or not isinstance(k0, int):
+                    undecidable = '%s %r' % (opn, k0)
+                    continue
+                cons.append((FLIP[opn] if swapped else opn, k0, c == 0))
+                consts.update((k0 - 1, k0, k0 + 1))
+            if len(cm) != len(r.log):
+                undecidable = 'a decision that is not a comparison of the field with a constant'
+            paths.append((cons, r))
+        if undecidable:
+            raise AnalysisError('BitReader.read_uint_or_none (width %d): %s - not a comparison of the raw field with a constant' % (n, undecidable))
+        bad = None
+        for raw in sorted(c for c in consts if 0 <= c <= max(2 ** n - 1, 0)):
+            feas = [r for cons, r in paths if all(HOLDS[o](raw, k) == t for o, k, t in cons)]
+            want = None if (n > 1 and raw == 2 ** n - 1) else 'raw'
+            for r in feas:
+                got = 'raise' if not r.ok else (None if r.value is None else ('raw' if repr(r.value) == 'raw' else repr(r.value)))
+                if got != want:
+                    bad = (raw, got, want)
+            if not feas:
+                bad = (raw, 'no path', want)
+        if bad:
             rr.fail('BitReader.read_uint_or_none', fi.where,
-                    'for width %d read_uint_or_none behaves as %s; FM-94: missing iff width > 1 and all %d bits are ones' % (n, sorted(outs, key=repr), n),
-                    witness={'nbits': n})
+                    'for width %d a field of value %d reads as %s (expected %s); FM-94: missing iff width > 1 and all %d bits are ones' % (
+                        n, bad[0], bad[1], 'missing' if bad[2] is None else 'the value', n), witness={'nbits': n, 'raw': bad[0]})
     rr.instance('BitReader.read_uint_or_none folded for widths 0..64')
     for m, want in sorted(READ_TABLE.items()):
         fi, recs, _ = run_primitive(repo, 'Decoder', m)
@@ -622,29 +647,37 @@ def rule_r7(repo):
                 break
         if longest != want:
             rr.fail('Decoder.%s:read-kinds' % m, fi.where, 'longest path reads %s, expected %s' % (longest, want))
-    # both compressed sites carry the one-bit rule: a 1-bit difference of 1 is missing
+    # both compressed sites carry the one-bit rule: a 1-bit difference of 1 is missing.  Decided by folding the routine with the
+    # three fields scripted (minimum, 6-bit width, difference): how the test is written (nested ifs, a flag computed before the loop,
+    # a helper) does not matter, only what is appended for each subset.
+    def per_subset(r):
+        return [e[2] for e in r.events if e[0] == 'append' and e[1] == 'decoded_values@subset']
     for m in ('process_numeric_compressed', 'process_codeflag_compressed'):
-        fi, recs, _ = run_primitive(repo, 'Decoder', m)
+        scripted = [('one-bit', [5, 1, 1], True, 'a 1-bit difference of value 1'),
+                    ('diff-missing', [5, 3, None], True, 'an all-ones difference (3 bits)'),
+                    ('diff-missing', [5, 1, None], True, 'a difference reported missing by the reader (1 bit)'),
+                    ('min-missing', [None, 0], True, 'an all-ones minimum with width 0'),
+                    ('one-bit-zero', [5, 1, 0], False, 'a 1-bit difference of value 0'),
+                    ('diff-value', [5, 3, 2], False, 'a 3-bit difference of value 2')]
         hit = False
-        for r in recs:
-            b = r.bindings()
-            if b.get('io2') == 1 and b.get('io1') == 1:
-                hit = True
-                vals = [e[2] for e in r.events if e[0] == 'append' and e[1] == 'decoded_values@subset']
-                if vals != [None]:
-                    rr.fail('Decoder.%s:one-bit' % m, fi.where, 'a 1-bit difference of value 1 decodes to %r, not missing' % (vals,))
-            # an all-ones difference (read as None) is missing
-            if 'io2' in b and b['io2'] is None:
-                vals = [e[2] for e in r.events if e[0] == 'append' and e[1] == 'decoded_values@subset']
-                if vals != [None]:
-                    rr.fail('Decoder.%s:diff-missing' % m, fi.where, 'an all-ones difference decodes to %r, not missing' % (vals,))
-            if b.get('io0', 0) is None and r.ok:
-                vals = [e[2] for e in r.events if e[0] == 'append' and e[1] == 'decoded_values@subset']
-                if vals != [None]:
-                    rr.fail('Decoder.%s:min-missing' % m, fi.where, 'an all-ones minimum decodes to %r, not missing for every subset' % (vals,))
+        for key, reads, want_missing, what in scripted:
+            fi, recs, _ = run_primitive(repo, 'Decoder', m, reads=reads)
+            oks = [r for r in recs if r.ok]
+            if not oks:
+                rr.fail('Decoder.%s:%s' % (m, key), fi.where, '%s: no path completes (%s)' % (what, sorted(set(r.exc for r in recs))))
+                continue
+            for r in oks:
+                vals = per_subset(r)
+                if want_missing:
+                    if key == 'one-bit':
+                        hit = True
+                    if vals != [None]:
+                        rr.fail('Decoder.%s:%s' % (m, key), fi.where, '%s decodes to %r, not missing [%s]' % (what, vals, r.desc()))
+                        break
+                elif m == 'process_numeric_compressed' and (len(vals) != 1 or vals[0] is None):
+                    rr.fail('Decoder.%s:%s' % (m, key), fi.where, '%s decodes to %r; it is an ordinary value [%s]' % (what, vals, r.desc()))
+                    break
         rr.instance('Decoder.%s: one-bit difference rule present: %s' % (m, hit))
-        if not hit:
-            rr.fail('Decoder.%s:one-bit' % m, fi.where, 'no path treats a 1-bit difference of value 1 as missing')
     # code / flag columns: the reconstructed value min + diff is missing when it is all ones of the element width (> 1 bit)
     m = 'process_codeflag_compressed'
     fi, recs, _ = run_primitive(repo, 'Decoder', m)
